@@ -880,11 +880,20 @@ impl Run {
 fn build_variant(root: &PathBuf, variant: &str, bin: &str) -> Result<PathBuf, String> {
     let target = root.join(format!("mc/target/variant-{}", variant));
     let manifest = root.join(format!("mc/variants/{}/Cargo.toml", variant));
-    let out = std::process::Command::new("cargo")
-        .args(["build", "--release", "--offline", "--quiet", "--bin", bin, "--manifest-path"])
-        .arg(&manifest)
-        .env("CARGO_TARGET_DIR", &target)
-        .env("CARGO_NET_OFFLINE", "true")
+    let mut cmd = std::process::Command::new("cargo");
+    cmd.args(["build", "--release", "--offline", "--quiet", "--bin", bin, "--manifest-path"]).arg(&manifest).env("CARGO_TARGET_DIR", &target).env("CARGO_NET_OFFLINE", "true");
+    // build-time configuration of the subject for this variant (RUST_BIGDECIMAL_* read by its build.rs and, through
+    // option_env!, by the drivers): KEY=VALUE lines in mc/variants/<variant>/build.env
+    if let Ok(txt) = std::fs::read_to_string(root.join(format!("mc/variants/{}/build.env", variant))) {
+        for line in txt.lines() {
+            if let Some((k, v)) = line.trim().split_once('=') {
+                if !k.starts_with('#') {
+                    cmd.env(k.trim(), v.trim());
+                }
+            }
+        }
+    }
+    let out = cmd
         .output()
         .map_err(|e| format!("cannot run cargo: {}", e))?;
     if !out.status.success() {
